@@ -92,21 +92,38 @@ def parse(out):
     return verdict, nfail, ntotal, failed_desc, unwind_fail
 
 
+def harness_level_only(out, crate):
+    """True iff every failed check is located in harness code, i.e. no check inside the code under test failed.  Harness code is
+    kani/ext/src/*.rs (reported relative to the ext crate: "src/...") or kani/incrate/*.rs (included into the crates of /repo)."""
+    locs = re.findall(r'Failed Checks: (.*?)\n\s*File: "([^"]*)"', out, re.S)   # a description may span several lines
+    n = len(re.findall(r'Failed Checks: ', out))
+
+    def harness_file(f):
+        if 'kani/incrate' in f or '/verif/kani/' in f:
+            return True
+        return crate == 'ext' and f.startswith('src/')
+    return n > 0 and len(locs) == n and all(harness_file(f) for _d, f in locs)
+
+
 _CACHE = {}
 
 
-def kani_part(setname, tier='quick', prop=None, stop_on_failure=False):
-    key = (setname, tier, prop, stop_on_failure)
+def kani_part(setname, tier='quick', prop=None, stop_on_failure=False, only=None):
+    key = (setname, tier, prop, stop_on_failure, only)
     if key in _CACHE:
         return _CACHE[key]
-    r = _kani_part(setname, tier, prop, stop_on_failure)
+    r = _kani_part(setname, tier, prop, stop_on_failure, only)
     _CACHE[key] = r
     return r
 
 
-def _kani_part(setname, tier='quick', prop=None, stop_on_failure=False):
+def _kani_part(setname, tier='quick', prop=None, stop_on_failure=False, only=None):
     pr = PartResult('kani:' + setname)
     hs = [h for h in SETS[setname] if (tier == 'thorough' or h.tier == 'quick') and (prop is None or prop in h.props)]
+    if only == 'xorshift':
+        hs = [h for h in hs if h.name.endswith('xorshift')]
+    elif only == 'xoshiro':
+        hs = [h for h in hs if not h.name.endswith('xorshift')]
     t0 = time.time()
     from concurrent.futures import ThreadPoolExecutor
     # harnesses of one crate share a target directory: the first run builds, the rest reuse; run a few in parallel
@@ -137,6 +154,12 @@ def _kani_part(setname, tier='quick', prop=None, stop_on_failure=False):
             detail = [dict(message='kani timed out after %ds' % h.timeout)]
         elif verdict == 'SUCCESSFUL':
             st = DISCHARGED
+        elif verdict == 'FAILED' and not unwind_fail and prop in ('C14', 'C18') and set(h.props) - {'C14', 'C18'} and harness_level_only(out, h.crate):
+            # a functional harness doubling as a panic-freedom check: only a failed check inside the code under test (overflow, bounds,
+            # panic) says anything about C14/C18; its own value assertions failing is a matter of the functional properties it names
+            st = UNDECIDED
+            detail = [dict(message='only value assertions of the harness failed (%s): no panic/overflow check failed, nothing to report for %s'
+                           % ('; '.join(failed_desc)[:200], prop))]
         elif verdict == 'FAILED' and not unwind_fail:
             st = FAILED
             # concrete values (Kani's concrete playback); once per part is enough to exhibit an input
@@ -218,7 +241,7 @@ register('seeding', [
     H('xorshift_from_rng_redraws_only_on_zero', 'C08 C09', bounded='at most two leading all-zero blocks', note='XorShiftRng::from_rng: redraw only on an all-zero block; state == LE words of the first non-zero block; source advanced by exactly the blocks drawn'),
     H('xorshift_try_from_rng_agrees_or_fails', 'C08 C09', bounded='at most two leading all-zero blocks', note='XorShiftRng::try_from_rng: same generator as from_rng on a source that does not fail; the source error and no generator when it fails (any failing call)'),
 ])
-register('serde_rt', [H('serde_' + n, 'C11', tier=('quick' if n in ('splitmix64', 'xoroshiro128plus', 'xoshiro128plusplus', 'xoshiro256plusplus', 'xoshiro512starstar', 'xorshift') else 'thorough'),
+register('serde_rt', [H('serde_' + n, 'C11', tier='quick',
                         note='bincode round trip of %s::from_seed(any): restored == original, original untouched' % n, timeout=1500)
                       for n in ('splitmix64', 'xoroshiro64star', 'xoroshiro64starstar', 'xoroshiro128plus', 'xoroshiro128plusplus', 'xoroshiro128starstar',
                                 'xoshiro128plus', 'xoshiro128plusplus', 'xoshiro128starstar', 'xoshiro256plus', 'xoshiro256plusplus', 'xoshiro256starstar',
@@ -234,20 +257,20 @@ register('jitter_incrate', [
 _API32 = ['xoroshiro64star', 'xoroshiro64starstar', 'xoshiro128plus', 'xoshiro128plusplus', 'xoshiro128starstar']
 _API64 = ['xoroshiro128plus', 'xoroshiro128plusplus', 'xoroshiro128starstar', 'xoshiro256plus', 'xoshiro256plusplus', 'xoshiro256starstar',
           'xoshiro512plus', 'xoshiro512plusplus', 'xoshiro512starstar']
-register('api', [H('api_seed_' + n, 'C01 C08', tier='thorough', timeout=1800,
+register('api', [H('api_seed_' + n, 'C01 C08 C14 C18', tier='thorough', timeout=1800,
                    note='%s::from_seed on the public API: non-zero seed verbatim (state observed through serde), zero seed == seed_from_u64(0), never the zero state' % n)
                  for n in _API32 + _API64] +
-                [H('api_step_' + n, 'C01 C05', tier='thorough', timeout=1800,
+                [H('api_step_' + n, 'C01 C05 C14 C18', tier='thorough', timeout=1800,
                    note='%s: native next == reference output, state after == reference successor, other-width call == documented projection (public API, arbitrary non-zero state)' % n)
                  for n in _API32 + _API64] +
-                [H('api_seed_xorshift', 'C04 C08', tier='thorough', note='XorShiftRng::from_seed: LE words / 0x0BAD5EED (public API)'),
-                 H('api_step_xorshift', 'C04 C05', tier='thorough', note='XorShiftRng::next_u32 == xor128 step (public API, arbitrary non-zero state)')])
+                [H('api_seed_xorshift', 'C04 C08 C14 C18', tier='thorough', note='XorShiftRng::from_seed: LE words / 0x0BAD5EED (public API)'),
+                 H('api_step_xorshift', 'C04 C05 C14 C18', tier='thorough', note='XorShiftRng::next_u32 == xor128 step (public API, arbitrary non-zero state)')])
 for _p in ('isaac', 'isaac64'):
     SETS[_p + '_incrate'] += [
         H(_p + '_core_serde_roundtrip', 'C11', crate='rand_isaac', tier='thorough', timeout=2400, flags=['--features', 'serde'], qual=_p + '::rngs_verif_harness::' + _p + '_core_serde_roundtrip',
           note='the ISAAC core in an arbitrary state (259 symbolic words) through derive output + isaac_array_serde (token format): restored == original'),
     ]
-SETS['api'] = [H('api_fill_' + n, 'C05', tier='thorough', timeout=1800, qual='api::api_fill_' + n,
+SETS['api'] = [H('api_fill_' + n, 'C05 C14 C18', tier='thorough', timeout=1800, qual='api::api_fill_' + n,
                  bounded='n <= 20 bytes (every tail length after 0, 1 and 2 full words), arbitrary state',
                  note='%s::fill_bytes(n) == n/8 next_u64, then one next_u64 / next_u32 truncated; generator left where the equivalent calls leave it' % n)
                for n in ['xoshiro128starstar', 'xoshiro256plusplus', 'xoroshiro128plusplus', 'xorshift', 'xoroshiro128plus',
